@@ -91,10 +91,17 @@ var typeSet = []int{0, 1, 3, 4, 5, 6, 128, 136, 137, 144, 254, 255, 256, 509, 51
 var sizeSet = []int{0, 0, 1, 1, 2, 3, 4, 16, 24}
 var bigSizeSet = []int{254, 255, 256, 509, 510, 511, 765, 1000}
 
+// payloads beyond the buffer sizes an implementation might read or grow in (4 KiB pages, 64 KiB): rare (about one
+// message in 175); the extracted model's list functions are slow on them, so they stay rare and below 10 KiB
+var hugeSizeSet = []int{4095, 4096, 4097, 5000}
+
 // mostly small sizes; the 0xFF-run boundaries of the size code about one message in seven
 func genSize(r *hx.Rng) int {
 	switch r.Intn(14) {
 	case 0, 1:
+		if r.Intn(40) == 0 {
+			return hugeSizeSet[r.Intn(len(hugeSizeSet))]
+		}
 		return bigSizeSet[r.Intn(len(bigSizeSet))]
 	case 2, 3:
 		return r.Intn(40)
